@@ -436,6 +436,12 @@ impl Sim {
         self.parts.len()
     }
 
+    /// A part that exists without a running command (left by an earlier attempt).
+    pub fn orphan_part(&mut self, hash: &str) -> usize {
+        self.parts.push(Part { hash: hash.to_string(), cmd: 0, st: "pending", code: 0 });
+        self.parts.len()
+    }
+
     pub fn part_done(&mut self, part: usize, how: &str, code: i32) {
         let p = &mut self.parts[part - 1];
         assert_eq!(p.st, "pending");
